@@ -134,6 +134,7 @@ class MAction(object):
         self.started = True
         self.ser_succ = None
         self.finished_inside = False
+        self.late_gates = []
 
     def __repr__(self):
         return "<MAction nid=%s %s %s n=%d>" % (self.nid, self.atype, self.outcome, len(self.children))
@@ -545,6 +546,7 @@ class Interp(object):
                 interp.api(("end", nid), a.__exit__, None, None, None)
 
         gen = g()
+        rc.live_gens.append(gen)
         if next(gen) != 1:
             raise _sched.HarnessError("generator protocol")
         self.check_current(env, "gen-suspended")
@@ -715,6 +717,8 @@ class Interp(object):
                     self.api(("end", nid), a.finish)
         else:
             raise _sched.HarnessError("unknown style %r" % style)
+        for gate in node.late_gates:
+            gate.open()
         for _ in range(extra_finish):
             # finishing again emits nothing
             self.api(("refinish", nid), a.finish)
@@ -811,6 +815,8 @@ class Interp(object):
             elif r is not holder:
                 rc.fail("log_call_result", "log_call(include_result=False) returned %r" % (r,))
                 raise Unwind()
+        for gate in node.late_gates:
+            gate.open()
         self.check_current(env, "exit:log_call")
         if escaped is not None and not catch:
             raise escaped
@@ -875,9 +881,13 @@ class Interp(object):
                 except BaseException as ex:  # noqa
                     if parent is not None:
                         self._model_fail(rnode, ex)
+                        for gate in rnode.late_gates:
+                            gate.open()
                     return
                 if parent is not None:
                     rnode.outcome = "succeeded"
+                    for gate in rnode.late_gates:
+                        gate.open()
                 if r is not ran or ran != [42]:
                     rc.fail("preserve_result", "preserved callable returned %r (ran=%r)" % (r, ran))
                     raise Unwind()
@@ -918,8 +928,20 @@ class Interp(object):
             child_env = Env()
             body = [{"op": "_continue", "task_id": task_id, "node": rnode, "fields": rfields,
                      "atype": op.get("atype"), "body": op["body"], "catch": True}]
-            act = s.spawn(name, lambda: self.actor_main(body, child_env, name))
-            pending.append(act)
+            if op.get("late"):
+                # fire-and-forget hand-over: the remote side starts only after the originating action
+                # has ended, and is joined at the very end of the run
+                gate = _sched.SimGate()
+                parent.late_gates.append(gate)
+                rc.probe("late_remote")
+
+                def late_main():
+                    gate.wait()
+                    return self.actor_main(body, child_env, name)
+                rc.late_actors.append(s.spawn(name, late_main))
+            else:
+                act = s.spawn(name, lambda: self.actor_main(body, child_env, name))
+                pending.append(act)
         else:
             raise _sched.HarnessError("unknown spawn kind %r" % kind)
         return
@@ -959,6 +981,8 @@ class Interp(object):
             env.stack.pop()
             node.outcome = "succeeded"
             self.api(("end", node.nid), a.__exit__, None, None, None)
+        for gate in node.late_gates:
+            gate.open()
 
     # ---------------------------------------------------------------- actors
     def actor_body(self, ops, env, name):
